@@ -151,11 +151,14 @@ class WMSInfoClient(object):
         info_bbox = req_srs.transform_bbox_to(info_srs, req_bbox)
         # calculate new info_size to keep square pixels after transform_bbox_to
         info_aratio = (info_bbox[3] - info_bbox[1])/(info_bbox[2] - info_bbox[0])
-        info_size = query.size[0], int(info_aratio*query.size[0])
+        info_size = query.size[0], max(int(info_aratio*query.size[0]), 1)
 
         info_coord = req_srs.transform_to(info_srs, req_coord)
         info_pos = make_lin_transf((info_bbox), (0, 0, info_size[0], info_size[1]))(info_coord)
         info_pos = int(round(info_pos[0])), int(round(info_pos[1]))
+        # the pixel has to be within the image
+        info_pos = (min(max(info_pos[0], 0), info_size[0] - 1),
+                    min(max(info_pos[1], 0), info_size[1] - 1))
 
         info_query = InfoQuery(
             bbox=info_bbox,
